@@ -43,7 +43,7 @@ def meta(o, ind):
 
 def render(opt):
     src = (meta(opt["ofile"], "") + f"!! {trc('file')}\n"
-           "module m\n" + meta(opt["omod"], "  ") + f"  !! {trc('m')}\n  implicit none\n"
+           "module m\n" + meta(opt["omod"], "  ") + f"  !! {trc('m')} see [[s_prv]] [[t_prv]] [[ai_prv]] [[v_prv]] [[t_pub]]\n  implicit none\n"
            "  private :: s_prv, ai_prv, en_prv\n"
            f"  enum, bind(c)\n    enumerator :: en_pub = 1 !! {trc('en_pub')}\n    enumerator :: en_prv !! {trc('en_prv')}\n  end enum\n"
            f"  integer, public :: v_pub !! {trc('v_pub')}\n"
@@ -63,7 +63,7 @@ def render(opt):
            f"  interface g_pub\n    !! {trc('g_pub')}\n    module procedure impl_g\n  end interface g_pub\n"
            f"  abstract interface\n    subroutine ai_prv(k)\n      !! {trc('ai_prv')}\n      integer :: k\n    end subroutine ai_prv\n  end interface\n"
            "contains\n"
-           "  subroutine s_pub()\n" + meta(opt["oproc"], "    ") + f"    !! {trc('s_pub')}\n"
+           "  subroutine s_pub()\n" + meta(opt["oproc"], "    ") + f"    !! {trc('s_pub')} uses [[s_prv]] and [[t_prv]] and [[inner]]\n"
            f"    integer :: lv !! {trc('lv')}\n"
            "    lv = 1\n    call inner()\n  contains\n"
            f"    subroutine inner()\n      !! {trc('inner')}\n    end subroutine inner\n"
